@@ -450,7 +450,10 @@ public:
     auto e = std::lower_bound(
         edge_begin(N1), edge_end(N1), N2,
         [=](edge_iterator e, GraphNode N) { return getEdgeDst(e) < N; });
-    return (getEdgeDst(e) == N2) ? e : edge_end(N1);
+    auto ee = edge_end(N1);
+    // lower_bound returns the end iterator when every destination is smaller
+    // than N2 (or N1 has no edges); do not dereference it
+    return (e != ee && getEdgeDst(e) == N2) ? e : ee;
   }
 
   runtime::iterable<NoDerefIterator<edge_iterator>>
